@@ -293,3 +293,98 @@ Proof.
   rewrite run_snoc, trace_snoc, !count_snoc.
   destruct (server_counts_step' cf (run cf ops) o s (FreshS_run cf ops)) as [A B]. lia.
 Qed.
+
+(* ------------------------------------------------------------------ address totals = sum over all its connections *)
+
+Lemma sumf_ext f g l : (forall x, In x l -> f x = g x) -> sumf f l = sumf g l.
+Proof.
+  induction l as [|a l IH]; intros H; simpl; [reflexivity|].
+  rewrite (H a (or_introl eq_refl)), IH; [reflexivity|]. intros x Hx. apply H. right. assumption.
+Qed.
+
+Lemma sumf_upd f g l k : NoDup l -> In k l -> (forall x, x <> k -> g x = f x) ->
+  sumf g l + f k = sumf f l + g k.
+Proof.
+  induction l as [|a l IH]; intros ND Hin H; simpl; [destruct Hin|].
+  inversion ND as [|? ? Hn ND']; subst.
+  destruct (Nat.eq_dec a k) as [->|Hne].
+  - rewrite (sumf_ext g f l); [lia|]. intros x Hx. apply H. intros ->. contradiction.
+  - destruct Hin as [->|Hin]; [congruence|]. specialize (IH ND' Hin H). rewrite (H a Hne). lia.
+Qed.
+
+Definition term (proj : server -> nat) (y : server) (a : nat) : nat := if s_addr y =? a then proj y else 0.
+
+Lemma srv_sum_upd proj t t' k a :
+  sids t' = sids t -> NoDup (sids t) -> In k (sids t) -> (forall x, x <> k -> sv t' x = sv t x) ->
+  srv_sum proj t' a + term proj (sv t k) a = srv_sum proj t a + term proj (sv t' k) a.
+Proof.
+  intros E ND Hin H. unfold srv_sum. rewrite E.
+  apply (sumf_upd (fun s => term proj (sv t s) a) (fun s => term proj (sv t' s) a)); auto.
+  intros x Hx. rewrite (H x Hx). reflexivity.
+Qed.
+
+Lemma srv_sum_same proj t t' a :
+  sids t' = sids t -> (forall x, In x (sids t) -> sv t' x = sv t x) -> srv_sum proj t' a = srv_sum proj t a.
+Proof. intros E H. unfold srv_sum. rewrite E. apply sumf_ext. intros x Hx. rewrite (H x Hx). reflexivity. Qed.
+
+Lemma srv_sum_new proj t t' k a :
+  sids t' = k :: sids t -> ~ In k (sids t) -> (forall x, x <> k -> sv t' x = sv t x) ->
+  srv_sum proj t' a = term proj (sv t' k) a + srv_sum proj t a.
+Proof.
+  intros E Hn H. unfold srv_sum. rewrite E. simpl. unfold term. f_equal.
+  apply sumf_ext. intros x Hx. rewrite (H x); [reflexivity|]. intros ->. contradiction.
+Qed.
+
+Lemma srv_sum_eq proj t t' a : sids t' = sids t -> sv t' = sv t -> srv_sum proj t' a = srv_sum proj t a.
+Proof. intros E H. unfold srv_sum. rewrite E, H. reflexivity. Qed.
+
+Definition Tot (t : st) : Prop := forall a,
+  a_xact (at_ t a) = srv_sum s_xact t a /\ a_query (at_ t a) = srv_sum s_query t a /\
+  a_sent (at_ t a) = srv_sum s_sent t a /\ a_recv (at_ t a) = srv_sum s_recv t a.
+
+Lemma Tot_init : Tot init.
+Proof. intros a. repeat split. Qed.
+
+(** The step touches server [k] only (and keeps the id list). *)
+Ltac touch t t' k a W :=
+  let Hin := fresh "Hin" in
+  assert (Hin : In k (sids t)) by (apply (w_sids _ W); apply (w_live _ W); assumption);
+  pose proof (srv_sum_upd s_xact t t' k a eq_refl (w_nd_s _ W) Hin) as U1;
+  pose proof (srv_sum_upd s_query t t' k a eq_refl (w_nd_s _ W) Hin) as U2;
+  pose proof (srv_sum_upd s_sent t t' k a eq_refl (w_nd_s _ W) Hin) as U3;
+  pose proof (srv_sum_upd s_recv t t' k a eq_refl (w_nd_s _ W) Hin) as U4;
+  cbn [sv] in U1, U2, U3, U4;
+  rewrite upd_same in U1, U2, U3, U4;
+  specialize (U1 (fun x Hx => upd_other _ _ _ _ Hx)); specialize (U2 (fun x Hx => upd_other _ _ _ _ Hx));
+  specialize (U3 (fun x Hx => upd_other _ _ _ _ Hx)); specialize (U4 (fun x Hx => upd_other _ _ _ _ Hx));
+  unfold term, set_sstate in U1, U2, U3, U4; cbn [s_addr s_xact s_query s_sent s_recv] in U1, U2, U3, U4;
+  cbn [at_]; unfold upd, a_add; eqb_all; cbn [a_xact a_query a_sent a_recv]; repeat split; lia.
+
+Lemma Tot_step cf t o : Wf t -> Own t -> Tot t -> Tot (step cf t o).
+Proof.
+  intros W O T a. specialize (T a). destruct T as [T1 [T2 [T3 T4]]].
+  unfold step. destruct (enabled cf t o) eqn:En; [| tauto].
+  destruct o; gd En; unfold apply, exit_client; cbv zeta;
+    try match goal with
+        | |- context [match c_held (cl ?t ?c) with _ => _ end] =>
+            let Hh := fresh "Hh" in destruct (c_held (cl t c)) eqn:Hh; [apply (o_c2s _ O) in Hh; destruct Hh as [_ [_ Hlive]] |]
+        end.
+  4: { match goal with |- context [mkSt _ _ (upd (sv ?t0) ?k ?y) (sids ?t0) _ _ ?atf] =>
+              touch t0 (mkSt (cl t0) (cids t0) (upd (sv t0) k y) (sids t0) (creg t0) (sreg t0) atf) k a W end. }
+  all: try (match goal with |- context [mkSt _ _ (upd (sv ?t0) ?k ?y) (sids ?t0) _ _ ?atf] =>
+              touch t0 (mkSt (cl t0) (cids t0) (upd (sv t0) k y) (sids t0) (creg t0) (sreg t0) atf) k a W end).
+  all: idtac "AFTER TOUCH". Show.
+  all: try (unfold srv_sum in *; cbn [sv sids at_]; unfold upd, a_add; eqb_all;
+            cbn [a_xact a_query a_sent a_recv]; repeat split; lia).
+  all: idtac "REMAIN". Show.
+  (* ServerConnect *)
+  assert (Hn : ~ In s (sids t)) by (rewrite (w_sids _ W); congruence).
+  rewrite !(srv_sum_new _ t _ s a eq_refl Hn (fun x Hx => upd_other _ _ _ _ Hx)).
+  cbn [sv at_]. rewrite upd_same. unfold term. cbn. destruct (a0 =? a); repeat split; lia.
+Qed.
+
+Lemma Tot_run cf ops : Tot (run cf ops).
+Proof.
+  induction ops as [|o ops IH] using rev_ind; [apply Tot_init|].
+  rewrite run_snoc. apply Tot_step; auto using Wf_run, Own_run.
+Qed.
